@@ -127,6 +127,41 @@ func TestC15_Exhaustive(t *testing.T) {
 	requireLabels(t, rec, "tok:generic", "tok:expression", "tok:csv", "tok:mustache")
 }
 
+// Literals with every pattern of quotes: the decode option concerns exactly these tokens, and short alphabets of
+// the general enumeration cannot reach a literal with several escapes.
+func TestC15_ExhaustiveQuotes(t *testing.T) {
+	rec := evid.New("C15", "TestC15_ExhaustiveQuotes", "C15", c15Rule)
+	rec.Exhaustive = true
+	rec.DupFree = true
+	defer finish(t, rec)
+	alphabet := []string{"\"", "'", "a", ","}
+	maxLen := pick(6, 8)
+	opts := []int{optDecodeStrings, optDecodeStrings | optSkipWhitespaces | optSkipEof, optDecodeStrings | optUnifyNumbers | optMergeWhitespaces | optSkipUnknown, optAll}
+	rec.Bounds = fmt.Sprintf("all strings of length 0..%d over %q x %d option sets with decoding on x %d tokenizers", maxLen, strings.Join(alphabet, ""), len(opts), len(tokKindsExt))
+	enumStrings(alphabet, maxLen, true, func(parts []string) {
+		in := runesOf(parts)
+		for _, k := range tokKindsExt {
+			c15RunInput(rec, k, in, opts)
+		}
+	})
+	requireLabels(t, rec, "tok:generic", "tok:expression", "tok:csv", "tok:mustache")
+}
+
+// genLiteral draws a quoted literal from its grammar: quote, pieces (doubled quote, the other quote, text,
+// separator), closing quote or none.
+func genLiteral(t *rapid.T) string {
+	q := rapid.SampledFrom([]string{"'", "\"", "'", "\"", "«", "“"}).Draw(t, "q")
+	var sb strings.Builder
+	sb.WriteString(q)
+	for n := rapid.IntRange(0, 6).Draw(t, "pieces"); n > 0; n-- {
+		sb.WriteString(rapid.SampledFrom([]string{q + q, q + q, "'", "\"", "a", "é", " ", ",", "\n", "1"}).Draw(t, "piece"))
+	}
+	if rapid.IntRange(0, 5).Draw(t, "closed") != 0 {
+		sb.WriteString(q)
+	}
+	return sb.String()
+}
+
 // genOptInput draws inputs weighted to "blank, comment, blank", Unknown characters, numbers, quoted strings.
 func genOptInput(t *rapid.T, kind string) string {
 	frags := []string{" ", "  ", "\t", "\n", "a", "ab", "1", "12", "1.5", ".5", "-3", "'x'", "\"y\"", "'a''b'", "'é'", "\"\"", "''", "'un", "😀", " ", "<", "<=", "<>", "=", ",", "+", "-", ".", "{", "}", "x_1"}
@@ -159,8 +194,10 @@ func genOptInput(t *rapid.T, kind string) string {
 		sb.WriteString(strings.Repeat(unit, rapid.IntRange(30, 300).Draw(t, "runlen")))
 	}
 	for i := 0; i < n; i++ {
-		if rapid.IntRange(0, 9).Draw(t, "k") == 0 {
+		if k := rapid.IntRange(0, 9).Draw(t, "k"); k == 0 {
 			sb.WriteRune(genRune(t))
+		} else if k == 1 {
+			sb.WriteString(genLiteral(t))
 		} else {
 			sb.WriteString(rapid.SampledFrom(frags).Draw(t, "frag"))
 		}
